@@ -1,6 +1,7 @@
 """C03 — range tests: inclusive interval membership, fail before suspect."""
 from __future__ import annotations
 
+import numpy as np
 import z3
 
 from symex.harness import Job, Struct
@@ -119,34 +120,42 @@ class ValidRange(Job):
         if self.kind == "float64":
             S.x = V.floats("x", self.n, nan=True)
             S.span = [V.float("lo", nan=True), V.float("hi", nan=True)]   # nan = bound absent (None)
+        elif self.kind == "int64 data, dtype=float64":
+            # integer data judged against a fractional span, with the comparison type passed explicitly
+            S.x = [V.int(f"x{i}", -2 ** 20, 2 ** 20) for i in range(self.n)]
+            S.span = [V.float("lo", nan=True), V.float("hi", nan=True)]
         else:
             S.x = [V.time(f"x{i}", nat=True, frac=self.frac, den=10 ** 9) for i in range(self.n)]
             S.span = [V.time("lo", nat=True, frac=self.frac, den=10 ** 9), V.time("hi", nat=True, frac=self.frac, den=10 ** 9)]
         return S
 
     def invoke(self, mods, S, K):
+        kw = {}
         if self.kind == "float64":
             inp = K.farray(S.x)
             span = K.ftuple(S.span)
+        elif self.kind == "int64 data, dtype=float64":
+            inp = K.iarray(S.x, "int64")
+            span = K.ftuple(S.span)
+            kw["dtype"] = np.float64
         else:
             inp = K.tarray(S.x)
             span = tuple(K.tnone(v) for v in S.span)
-        kw = {}
         if self.pass_flags is True:
-            kw = {"start_inclusive": self.si, "end_inclusive": self.ei}
+            kw.update({"start_inclusive": self.si, "end_inclusive": self.ei})
         elif self.pass_flags == "start":
-            kw = {"start_inclusive": self.si}
+            kw.update({"start_inclusive": self.si})
         elif self.pass_flags == "end":
-            kw = {"end_inclusive": self.ei}
+            kw.update({"end_inclusive": self.ei})
         return mods.axds.valid_range_test(inp, valid_span=span, **kw)
 
     def holds(self, S, out):
         if out.raised:
             return [("valid_range_test does not raise on a well-formed call", FALSE)]
         obl = shape_obligations(out, self.n)
-        isf = self.kind == "float64"
-        val = (lambda v: v.v) if isf else (lambda v: z3.ToReal(v.s) + v.f if getattr(v, "f", None) is not None else v.s)
-        miss = (lambda v: v.nan) if isf else (lambda v: v.nat)
+        isf = self.kind in ("float64", "int64 data, dtype=float64")
+        val = (lambda v: (z3.ToReal(v.v) if z3.is_int(v.v) else v.v)) if isf else (lambda v: z3.ToReal(v.s) + v.f if getattr(v, "f", None) is not None else v.s)
+        miss = (lambda v: getattr(v, "nan", FALSE)) if isf else (lambda v: v.nat)
         lo, hi = S.span
         # documented defaults: start_inclusive=True, end_inclusive=False - each on its own
         si = self.si if self.pass_flags in (True, "start") else True
@@ -181,6 +190,9 @@ def jobs(tier):
                     out.append(ValidRange(n, kind, si, ei))
         out.append(ValidRange(2, kind, True, False, pass_flags=False))
         out.append(ValidRange(2, kind, False, False, pass_flags="start"))
+        if kind == "float64":
+            for si, ei in ((True, False), (False, True)):
+                out.append(ValidRange(2, "int64 data, dtype=float64", si, ei))
         out.append(ValidRange(2, kind, True, True, pass_flags="end"))
     for si in (True, False):
         for ei in (True, False):
